@@ -631,6 +631,23 @@ class WSGIApp:
             return submodel
 
     @classmethod
+    def _expect_same_identity(cls, existing: model.Referable, replacement: model.Referable) -> None:
+        """
+        A PUT replaces the content of the addressed resource. The resource stays filed under the identifier (or
+        idShort) it is addressed by and keeps its class, so a replacement that claims another one is rejected before
+        anything is changed.
+        """
+        if type(replacement) is not type(existing):
+            raise BadRequest(f"{existing!r} can't be replaced by an object of type {type(replacement).__name__}!")
+        if isinstance(existing, model.Identifiable):
+            if replacement.id != existing.id:  # type: ignore[attr-defined]
+                raise BadRequest(f"The id {replacement.id!r} of the given object "  # type: ignore[attr-defined]
+                                 f"doesn't match the id of {existing!r}!")
+        elif not isinstance(existing.parent, model.SubmodelElementList) and replacement.id_short != existing.id_short:
+            raise BadRequest(f"The idShort {replacement.id_short!r} of the given object doesn't match the idShort of "
+                             f"{existing!r}!")
+
+    @classmethod
     def _expect_namespace(cls, obj: object, needle: str) -> model.UniqueIdShortNamespace:
         if not isinstance(obj, model.UniqueIdShortNamespace):
             raise BadRequest(f"{obj!r} is not a namespace, can't locate {needle}!")
@@ -787,8 +804,9 @@ class WSGIApp:
 
     def put_aas(self, request: Request, url_args: Dict, response_t: Type[APIResponse], **_kwargs) -> Response:
         aas = self._get_shell(url_args)
-        aas.update_from(HTTPApiDecoder.request_body(request, model.AssetAdministrationShell,
-                                                    is_stripped_request(request)))
+        new_aas = HTTPApiDecoder.request_body(request, model.AssetAdministrationShell, is_stripped_request(request))
+        self._expect_same_identity(aas, new_aas)
+        aas.update_from(new_aas)
         aas.commit()
         return response_t()
 
@@ -927,7 +945,9 @@ class WSGIApp:
 
     def put_submodel(self, request: Request, url_args: Dict, response_t: Type[APIResponse], **_kwargs) -> Response:
         submodel = self._get_submodel(url_args)
-        submodel.update_from(HTTPApiDecoder.request_body(request, model.Submodel, is_stripped_request(request)))
+        new_submodel = HTTPApiDecoder.request_body(request, model.Submodel, is_stripped_request(request))
+        self._expect_same_identity(submodel, new_submodel)
+        submodel.update_from(new_submodel)
         submodel.commit()
         return response_t()
 
@@ -1000,6 +1020,7 @@ class WSGIApp:
         new_submodel_element = HTTPApiDecoder.request_body(request,
                                                            model.SubmodelElement,  # type: ignore[type-abstract]
                                                            is_stripped_request(request))
+        self._expect_same_identity(submodel_element, new_submodel_element)
         submodel_element.update_from(new_submodel_element)
         submodel_element.commit()
         return response_t()
@@ -1168,8 +1189,10 @@ class WSGIApp:
     def put_concept_description(self, request: Request, url_args: Dict, response_t: Type[APIResponse],
                                 **_kwargs) -> Response:
         concept_description = self._get_concept_description(url_args)
-        concept_description.update_from(HTTPApiDecoder.request_body(request, model.ConceptDescription,
-                                                                    is_stripped_request(request)))
+        new_concept_description = HTTPApiDecoder.request_body(request, model.ConceptDescription,
+                                                              is_stripped_request(request))
+        self._expect_same_identity(concept_description, new_concept_description)
+        concept_description.update_from(new_concept_description)
         concept_description.commit()
         return response_t()
 
